@@ -55,19 +55,39 @@ contract("qubovert.utils._pubomatrix:PUBOMatrix.__getitem__", props=["C05"],
          raises=[("KeyError", "not keyvalid(self, key)")],
          returns="real", ensures=["result == lookup(self, sq(self, key))"])
 
+_VARS_GROW = [
+    "implies(value == 0, seteq(self._variables, old(self._variables)) and "
+    "self._num_binary_variables == old(self._num_binary_variables) and self._degree == old(self._degree))",
+    "implies(value != 0, seteq(self._variables, union(old(self._variables), members(sq(self, key)))))",
+    "implies(value != 0, self._degree >= klen(sq(self, key)))", "self._degree >= old(self._degree)",
+    # the counter follows the set: if it was its cardinality before, it is afterwards
+    "self._num_binary_variables - setcard(self._variables) == "
+    "old(self._num_binary_variables) - old(setcard(self._variables))",
+]
+
 contract("qubovert.utils._pubomatrix:PUBOMatrix.__setitem__", props=["C05", "C14"],
          instances=[{"self": "model:" + c, "key": "key", "value": "real"} for c in ALL],
          raises=[("KeyError", "not keyvalid(self, key)")],
          returns="none", effects=[("store(self)", "store_put(store(self), sq(self, key), value)")],
-         modifies=BK,
-         loops={1: {"invariant": "True"}})
+         modifies=BK, ensures=_VARS_GROW,
+         loops={1: {"invariant": "seteq(self._variables, union(pre(self._variables), members(visited))) and "
+                                 "self._num_binary_variables - setcard(self._variables) == "
+                                 "pre(self._num_binary_variables) - pre(setcard(self._variables))"}})
+
+_MAP_INV = [
+    # mapping enumerates exactly the reported variables, and the next free label is the number of mapped labels
+    "implies(old(seteq(lset(self._mapping), self._variables)), seteq(lset(self._mapping), self._variables))",
+    "implies(old(domcard(self._mapping) == self._next_label), domcard(self._mapping) == self._next_label)",
+]
 
 contract("qubovert.utils._bo_parentclass:BO.__setitem__", props=["C05", "C14"],
          instances=[{"self": "model:" + c, "key": "key", "value": "real"} for c in LABELLED],
          raises=[("KeyError", "not keyvalid(self, key)")],
          returns="none", effects=[("store(self)", "store_put(store(self), sq(self, key), value)")],
-         modifies=BK_BO,
-         loops={1: {"invariant": "True"}})
+         modifies=BK_BO, ensures=_VARS_GROW + _MAP_INV,
+         loops={1: {"invariant": "seteq(lset(self._mapping), union(pre(lset(self._mapping)), "
+                                 "inter(self._variables, members(visited)))) and "
+                                 "domcard(self._mapping) - self._next_label == pre(domcard(self._mapping)) - pre(self._next_label)"}})
 
 # ---------------------------------------------------------------------------------- construction, clear, copy
 RESET = BK_BO + ["self._name", "self._ancilla", "self._constraints"]
@@ -88,21 +108,23 @@ contract("qubovert.utils._dict_arithmetic:DictArithmetic.__init__", props=["C05"
          instances=[{"self": "newmodel:" + c, "args": a, "kwargs": "emptydict"} for c in ALL
                     for a in ("tuple:", "tuple:termdict", "tuple:model:" + c)],
          call_when=_shape_init,
-         requires=["is_empty(self)", "len(args) == 0 or keysvalid(self, args[0])", "len(args) == 0 or distinct(self, args[0])"],
+         requires=["is_empty(self)", "len(args) == 0 or keysvalid(self, args[0])", "len(args) == 0 or distinct(self, args[0])",
+                   "bk(self)"],
          returns="none", modifies=["self"],
          ensures=["den(self) == (den_as(self, args[0]) if len(args) == 1 else 0)", "wf(self)",
-                  "len(args) == 1 or is_empty(self)"],
-         loops={1: {"invariant": "den(self) == den_as(self, visited) and wf(self)"}})
+                  "len(args) == 1 or is_empty(self)", "bk(self)"],
+         loops={1: {"invariant": "den(self) == den_as(self, visited) and wf(self) and bk(self)"}})
 
 contract("qubovert.utils._pubomatrix:PUBOMatrix.clear", props=["C05", "C14"],
          instances=[{"self": "model:" + c} for c in ALL],
-         returns="none", effects=[("store(self)", "empty_store()")], modifies=RESET)
+         returns="none", effects=[("store(self)", "empty_store()")], modifies=RESET, ensures=["bk(self)"])
 
 contract("qubovert.utils._dict_arithmetic:DictArithmetic.copy", props=["C05", "C19"],
          instances=[{"self": "model:" + c} for c in ALL],
          requires=["wf(self)"],
          returns=lambda env, eng: "fresh:model:" + env["self"].cls.name,
-         ensures=["den(result) == den(self)", "wf(result)", "isfresh(result)", "sameclass(result, self)"])
+         ensures=["den(result) == den(self)", "wf(result)", "isfresh(result)", "sameclass(result, self)", "bk(result)",
+                  "anc_of(result) == anc_of(self)"])
 
 # ---------------------------------------------------------------------------------- in-place arithmetic
 def _others(c):
@@ -116,8 +138,9 @@ for op, sign in (("__iadd__", "+"), ("__isub__", "-")):
                        "isnumber(other) or distinct(self, other)"],
              returns="param:self", modifies=STORE_BK,
              ensures=["den(self) == old(den(self)) %s (other if isnumber(other) else den_as(self, other))" % sign,
-                      "wf(self)", "result is self"],
-             loops={1: {"invariant": "den(self) == old(den(self)) %s den_as(self, visited) and wf(self)" % sign}})
+                      "wf(self)", "result is self", "implies(old(bk(self)), bk(self))"],
+             loops={1: {"invariant": "den(self) == old(den(self)) %s den_as(self, visited) and wf(self) and "
+                                     "implies(old(bk(self)), bk(self))" % sign}})
 
 contract("qubovert.utils._dict_arithmetic:DictArithmetic.__imul__", props=["C05"],
          instances=[{"self": "model:" + c, "other": o} for c in PTYPES for o in _others(c)] +
@@ -126,11 +149,11 @@ contract("qubovert.utils._dict_arithmetic:DictArithmetic.__imul__", props=["C05"
                    "isnumber(other) or distinct(self, other)"],
          returns="param:self", modifies=STORE_BK,
          ensures=["den(self) == old(den(self)) * (other if isnumber(other) else den_as(self, other))",
-                  "wf(self)", "result is self"],
-         loops={1: {"invariant": "den(self) == den_as(self, visited) * den_as(self, other) and wf(self)"},
+                  "wf(self)", "result is self", "implies(old(bk(self)), bk(self))"],
+         loops={1: {"invariant": "den(self) == den_as(self, visited) * den_as(self, other) and wf(self) and implies(old(bk(self)), bk(self))"},
                 2: {"invariant": "den(self) == den_as(self, visited1) * den_as(self, other) + "
-                                 "v * mono_as(self, k) * den_as(self, visited2) and wf(self)"},
-                3: {"invariant": "den(self) == den_as(self, coll) + (other - 1) * den_as(self, visited) and wf(self) and "
+                                 "v * mono_as(self, k) * den_as(self, visited2) and wf(self) and implies(old(bk(self)), bk(self))"},
+                3: {"invariant": "den(self) == den_as(self, coll) + (other - 1) * den_as(self, visited) and wf(self) and implies(old(bk(self)), bk(self)) and "
                                  "forall_key(lambda q: implies(not has(visited, q), has(self, q) == has(coll, q) and "
                                  "lookup(self, q) == lookup(coll, q)))"}})
 
@@ -138,8 +161,8 @@ contract("qubovert.utils._dict_arithmetic:DictArithmetic.__itruediv__", props=["
          instances=[{"self": "model:" + c, "other": "real"} for c in ALL],
          requires=["wf(self)", "other != 0"],
          returns="param:self", modifies=STORE_BK,
-         ensures=["den(self) * other == old(den(self))", "wf(self)", "result is self"],
-         loops={1: {"invariant": "den(self) * other == den_as(self, coll) * other + (1 - other) * den_as(self, visited) and wf(self) and "
+         ensures=["den(self) * other == old(den(self))", "wf(self)", "result is self", "implies(old(bk(self)), bk(self))"],
+         loops={1: {"invariant": "den(self) * other == den_as(self, coll) * other + (1 - other) * den_as(self, visited) and wf(self) and implies(old(bk(self)), bk(self)) and "
                                  "forall_key(lambda q: implies(not has(visited, q), has(self, q) == has(coll, q) and "
                                  "lookup(self, q) == lookup(coll, q)))"}})
 
@@ -148,7 +171,7 @@ contract("qubovert.utils._dict_arithmetic:DictArithmetic.__ipow__", props=["C05"
                    [{"self": "model:" + c, "exponent": "const:1"} for c in ("QUBO", "QUSO", "QUBOMatrix", "QUSOMatrix")],
          requires=["wf(self)"],
          returns="param:self", modifies=STORE_BK,
-         ensures=["den(self) == old(den(self)) ** exponent", "wf(self)", "result is self"],
+         ensures=["den(self) == old(den(self)) ** exponent", "wf(self)", "result is self", "implies(old(bk(self)), bk(self))"],
          note="exponents 1..3 (concretely unrolled); symbolic exponents are left to the bounded stand-in")
 contract("qubovert.utils._dict_arithmetic:DictArithmetic.__ipow__#err", props=["C05"], trusted=True,
          instances=[], note="placeholder") if False else None
@@ -159,7 +182,7 @@ def _wrap(name, instances, ens, extra_req=()):
              instances=instances,
              requires=["wf(self)"] + list(extra_req),
              returns=lambda env, eng: "fresh:model:" + env["self"].cls.name,
-             ensures=[ens, "wf(result)", "isfresh(result)", "sameclass(result, self)"])
+             ensures=[ens, "wf(result)", "isfresh(result)", "sameclass(result, self)", "bk(result)"])
 
 
 _OTH = "(other if isnumber(other) else den_as(self, other))"
@@ -178,3 +201,21 @@ _wrap("__pow__", [{"self": "model:" + c, "exponent": "const:%d" % e} for c in PT
       "den(result) == den(self) ** exponent")
 _wrap("__neg__", [{"self": "model:" + c} for c in ALL], "den(result) == -den(self)")
 _wrap("__pos__", [{"self": "model:" + c} for c in ALL], "den(result) == den(self)")
+
+# ---------------------------------------------------------------------------------- update / refresh (C14)
+contract("qubovert.utils._dict_arithmetic:DictArithmetic.update", props=["C14"],
+         instances=[{"self": "model:" + c, "args": a, "kwargs": "emptydict"}
+                    for c in ("PUBO", "PUSO", "QUBO", "QUSO", "PUBOMatrix", "PUSOMatrix", "QUBOMatrix", "QUSOMatrix")
+                    for a in ("tuple:termdict", "tuple:model:" + c)],
+         requires=["wf(self)", "keysvalid(self, args[0])", "distinct(self, args[0])"],
+         returns="none", modifies=STORE_BK,
+         ensures=["wf(self)", "implies(old(bk(self)), bk(self))"],
+         loops={1: {"invariant": "wf(self) and implies(old(bk(self)), bk(self))"}})
+
+contract("qubovert.utils._pubomatrix:PUBOMatrix.refresh", props=["C14"],
+         instances=[{"self": "model:" + c} for c in ALL],
+         requires=["wf(self)"],
+         returns="none", modifies=["self"],
+         ensures=["den(self) == old(den(self))", "wf(self)", "bk(self)", "anc_of(self) == old(anc_of(self))"],
+         note="refresh() leaves the represented function unchanged and re-establishes the bookkeeping invariant; "
+              "exactness of variables/degree after refresh is bounded (C14.refresh_exact)")
